@@ -31,25 +31,43 @@ fn exec(c: &Case) -> Outs {
 
 pub use vcore::lit::{limb_carry_fraction, LIMB_GROUPS, round_literal, tokenise, Parsed};
 
-/// The library's wording of the overflow error is not part of the property (the error's kind is private);
-/// it is learned from a literal that can only be an overflow ("256" as U8F0) and must differ from the wording
-/// of a malformed-literal error ("x").
-fn overflow_message() -> &'static str {
-    static M: std::sync::OnceLock<String> = std::sync::OnceLock::new();
+/// The wording of the errors is not part of the property (the error's kind is private), only that an out-of-range
+/// literal fails with "an overflow error" and a malformed one with an error. What is asserted for an out-of-range
+/// literal in the plain form: an `Err` whose text is NOT one of the texts the library gives for malformed literals
+/// (learned from a fixed set of malformed probes). If the library words some overflow like a malformed literal
+/// (probes "256" / "-129" / "-1" give a text from that set), any `Err` is accepted.
+fn malformed_messages() -> &'static (Vec<String>, bool) {
+    static M: std::sync::OnceLock<(Vec<String>, bool)> = std::sync::OnceLock::new();
     M.get_or_init(|| {
-        let u8f0 = L::new(false, 8, 0).idx() as u16;
-        let get = |s: &str| -> Option<String> {
-            let c = Case { op: PARSE, lay: u8f0, lay2: 10, s: s.to_string(), ..Case::default() };
+        let get = |l: L, s: &str| -> Option<String> {
+            let c = Case { op: PARSE, lay: l.idx() as u16, lay2: 10, s: s.to_string(), ..Case::default() };
             match exec(&c).into_iter().find(|(l, _)| *l == "plain") {
                 Some((_, Out::E(m))) => Some(m),
                 _ => None,
             }
         };
-        match (get("256"), get("x")) {
-            (Some(o), Some(bad)) if o != bad => o,
-            _ => "overflow".to_string(),
+        let (u8f0, i8f0, i16f16) = (L::new(false, 8, 0), L::new(true, 8, 0), L::new(true, 32, 16));
+        let mut bad = Vec::new();
+        for probe in ["", "-", "+", ".", "-.", "x", "1x", "1.2.3", "..", "+-1", "1-", "1 ", " 1", "1_0", "--1", "1.2.", "1e3", "0x10"] {
+            for l in [u8f0, i16f16] {
+                if let Some(m) = get(l, probe) {
+                    if !bad.contains(&m) {
+                        bad.push(m);
+                    }
+                }
+            }
         }
+        let overflow_probes = [get(u8f0, "256"), get(i8f0, "-129"), get(u8f0, "-1"), get(i16f16, "99999999")];
+        let distinguishable = overflow_probes.iter().all(|m| matches!(m, Some(t) if !bad.contains(t)));
+        (bad, distinguishable)
     })
+}
+fn overflow_error_ok(got: &Out) -> bool {
+    let (bad, distinguishable) = malformed_messages();
+    match got {
+        Out::E(m) => !*distinguishable || !bad.contains(m),
+        _ => false,
+    }
 }
 
 // ---------------- literal construction ----------------
@@ -582,7 +600,13 @@ impl Engine for Text {
                         for (label, got) in &outs {
                             let exp = match (*label, fits) {
                                 ("plain", true) | ("parse()", true) | ("saturating", true) | ("wrapping", _) => Exp::Is(Out::V(wr)),
-                                ("plain", false) | ("parse()", false) => Exp::Is(Out::E(overflow_message().to_string())),
+                                ("plain", false) | ("parse()", false) => {
+                                    if overflow_error_ok(got) {
+                                        Exp::Free
+                                    } else {
+                                        Exp::Is(Out::E("an overflow error (Err whose text differs from the texts given for malformed literals)".to_string()))
+                                    }
+                                }
                                 ("saturating", false) => Exp::Is(Out::V(l.clamp(&r))),
                                 ("overflowing", _) => Exp::Is(Out::F(wr, !fits)),
                                 _ => Exp::Free,
